@@ -310,5 +310,25 @@ func VerifC07_KGensym() {
 	r := env.LoadString("g", "(let ((gen00000001 'user-bound)) (let ((s (gensym))) (list (symbol= s 'gen00000001) gen00000001)))")
 	_ = text
 	vObserve("collision", r.String())
+	// a symbol the program text spells exactly like an upcoming gensym: still a different symbol
+	// (probed on the paths with n == 2 only; the others end here)
+	if n != 2 {
+		vCover("end")
+		return
+	}
+	env2 := newEnv(nil)
+	for i := 0; i < prior; i++ {
+		env2.LoadString("g", "(gensym)")
+	}
+	nextName := "gen0000000" + itoa(prior+1)
+	c := env2.LoadString("g", "(let (("+nextName+" 'user-bound)) (let ((s (gensym))) (list (symbol= s '"+nextName+") (to-string s))))")
+	vAssert(c.Type != lisp.LError && len(c.Cells) == 2, "probe evaluates: "+outcome(c))
+	if lisp.True(c.Cells[0]) {
+		// KNOWN FINDING: gensym names are ordinary readable symbols gen%08d
+		if vKnown("C07-gensym-names-are-readable-symbols", c.Cells[1].Str == nextName) {
+			return
+		}
+	}
+	vAssert(!lisp.True(c.Cells[0]), "a gensym symbol is distinct from every symbol the program text contains, also one spelled "+nextName)
 	vCover("end")
 }
